@@ -17,7 +17,7 @@ check(
     "exhaustive runtime enumeration against an 8-line reference relation + in-situ icontract postcondition on is_compatible",
     "Every ordered pair of the finite descriptor universe of the quantifier (840x840 index pairs, 635 distinct descriptors) is evaluated on the real "
     "BondDescriptor objects, built through the constructor and through token parsing, and compared with the conjugation rule; symmetry, weight "
-    "independence and the candidate filter are checked on the same objects. The quantifier is finite, so the run is exhaustive over it.",
+    "independence and the candidate filter are checked on the same objects; parsed builds cover several positions in a token (after an atom, after one- and two-digit ring closures, alone in a branch, after a closed branch, first in the token); the weighted pick built on the filter is driven with hostile weights. The quantifier is finite, so the run is exhaustive over it.",
     "Trusts the 8-line reference relation gbv/ref/compat.py and the mapping prefix -> bond order stated in the property; ids > 12 are outside the universe.",
     "DESIGN.md section 3, C03",
 )
@@ -48,7 +48,7 @@ check(
     "Every attachment made by the real generator (random streams over ten archetypes, and all choice sequences of bounded instances enumerated with a "
     "scripted Generator) is checked against the reference conjugation rule and the prescribed atoms/order by a contract that snapshots the molecule "
     "before and compares after; returned molecules' inter-residue bonds must be explained one-to-one by attach events of their deep-copy lineage; "
-    "attach_other is also driven directly with =/# orders, incompatible pairs and out-of-range indices.",
+    "independently of the library's parser every inter-residue bond must sit on atoms where the notation (reference dummy-atom reader) writes compatible descriptors of that order; attach_other is also driven directly with =/# orders, incompatible pairs and out-of-range indices.",
     "Held on the executions observed (counts in the evidence). Trusts gbv/ref/compat.py and the contract code; non-single descriptors only through direct driving.",
     "DESIGN.md section 3, C04",
 )
@@ -114,7 +114,7 @@ check(
     "enumeration of all specification shapes with random values against an independent solver of the linear mixture system; icontract class invariant on Mixture",
     "All assignments of {absolute, percent, unspecified} to 1-5 components that the notation can express, with consistent / inconsistent / over-100 values "
     "and with or without a caller-supplied system mass, are parsed by the real System; generability, system mass and every component's masses are compared "
-    "with the solution of the linear system, before and after print -> re-parse; abs = rel/100*sys is an invariant contract on the Mixture class.",
+    "with the solution of the linear system, before and after print -> re-parse (also for under-determined systems); the same text is re-used with another / no caller mass in the same process; abs = rel/100*sys is an invariant contract on the Mixture class.",
     "Shapes are exhaustive for 1-5 one-token components, values are sampled. Trusts gbv/ref/mixture.py (80 lines).",
     "DESIGN.md section 3, C12",
 )
@@ -122,7 +122,7 @@ check(
     "C13",
     "offline checker over the sequence yielded by System.generator driven with a spying Generator (stop rule on the library's own partial sums, membership by residue audit)",
     "Systems of 1-4 components of all archetypes are iterated; each yielded molecule must be complete and pass the residue audit against exactly one "
-    "declared component, the sequence must end exactly at the first partial sum >= system mass; non-generable systems must refuse iteration and single generation.",
+    "declared component, the sequence must end exactly at the first partial sum >= system mass (also for two iterations of one system advanced alternately, and for system masses hit exactly); non-generable systems and components that can never be completed must be refused by iteration and by single generation.",
     "Held on the systems iterated. Membership is decided by the C05/C06 audit per component; residue ids <= 25.",
     "DESIGN.md section 3, C13",
 )
@@ -130,7 +130,7 @@ check(
     "C14",
     "trace monitor on the component-pick probability vectors seen at the Generator interface + measured mass shares with a variance-derived tolerance band (bounded restatement of convergence)",
     "For multi-component systems with light and heavy molecules the constant pick vector p* and the measured mean molecule masses give the asymptotic mass "
-    "share implied by the selection law, compared with the declared fractions; measured shares are compared within max(6.5 sigma, 3 m_max/M) and re-confirmed.",
+    "share implied by the selection law, compared with the fractions that were WRITTEN (every number spelling); measured shares are compared within max(6.5 sigma, 3 m_max/M) and re-confirmed; systems of equal-mass isomers (incl. 0 % components) decide the clause without reference to the known finding, through the iterator and through System.generate.",
     "The limit statement is restated as a finite-mass band. On the pinned tree the per-molecule pick law is a recorded known finding; any other deviation is reported.",
     "DESIGN.md section 3, C14",
 )
@@ -138,7 +138,7 @@ check(
 check(
     "C15",
     "fault-injection style workload (one structural rule broken per probe) with an exception-vs-object oracle; termination decided by a logical line budget counted with sys.monitoring",
-    "Thirteen breaking operators are applied at random positions of valid instances of all archetypes; each probe must be answered with an error at "
+    "Twenty breaking operators (incl. misuse of the call interface: wrong / complete / two-descriptor prefixes handed to Stochastic.generate and SmilesToken.generate) are applied at random positions of valid instances of all archetypes; each probe must be answered with an error at "
     "construction, or be non-generable and raise on generate, or raise on generate, as the rule demands. Byte-level mutants of valid strings are parsed by "
     "all five constructors under a budget of executed library lines (100x the valid string's count + 50000), which decides termination without wall clock.",
     "Held on the probes made. Any exception type counts as rejection; operators are constructed so that the broken string violates the stated rule.",
@@ -150,7 +150,7 @@ check(
     "differential runtime oracle: every node and edge of the real gen_reaction_graph() output against the reference selection law built from the AST",
     "For molecules of all archetypes (plus connectors with two live descriptors, zero weights, left-terminal lists) the returned DiGraph is compared "
     "node by node and edge by edge with the probabilities the reference law assigns to each pick; normalisation (0 or 1) is checked at every descriptor node, "
-    "not only the last; edges must join compatible descriptors.",
+    "not only the last; edges must join compatible descriptors; the graph must be the same when asked twice and the mirror's graph must equal the graph of a fresh parse of the mirror's text.",
     "Held on the graphs explored. Trusts gbv/ref/graphs.py + the law in gbv/ref/model.py; absent edge categories are only demanded for repeat-unit descriptors with lawful picks.",
     "DESIGN.md section 3, C16",
 )
@@ -159,7 +159,7 @@ check(
     "differential runtime oracle: nodes/static edges/non-static edges of the real StochasticAtomGraph against a reference graph (required-edge set + admissibility predicate) built from the AST",
     "For molecules of all archetypes, with Schulz-Zimm distributions (default) and any distribution (flag off), every node attribute, static edge and "
     "non-static edge of the MultiDiGraph is checked: admissible edges only (compatible descriptors' attachment atoms, right order, inside an object or "
-    "between consecutive elements respecting terminals, never leaving an end group) and all required edges present with their weights.",
+    "between consecutive elements respecting terminals, never leaving an end group) and all required edges present with their weights; same graph when asked twice, mirror's graph = graph of a fresh parse of the mirror's text.",
     "Held on the graphs explored. Extra edges the statement does not forbid are tolerated; zero-weight partners need no edge.",
     "DESIGN.md section 3, C17",
 )
@@ -178,7 +178,7 @@ check(
     "differential runtime oracle: get_ensemble_prob on harness-assembled chains (and random atom renumberings, and non-members) against closed-form interval probabilities x the reference model's exact path probability",
     "For linear chains of one directed unit per block (1-3 blocks, prefix or end-group start, all families) every chain length up to a bound is queried and "
     "compared with the probability that generation produces that molecule; sums over lengths, non-members (must be 0) and atom-order independence are "
-    "checked; each query runs under a logical line budget.",
+    "checked; each query runs under a logical line budget. Deviations are classified as listed findings only when the value equals what the listed mechanism (or a composition of listed mechanisms) predicts exactly.",
     "Held on the queries decided. Trusts gbv/ref/dist.py and gbv/ref/model.py; for Schulz-Zimm the documented density on integer masses is summed.",
     "DESIGN.md section 3, C19",
 )
@@ -189,7 +189,7 @@ check(
     "Random histories (parse, seeded and global-generator generation, printing, elements/mirror with mutation of the returned copies, both graphs, "
     "atom-graph generation, ensemble probability, typing with default and explicit files, failing generation + retry, deep copies, two objects from one "
     "string, arbitrary re-seeding of the global generator) run over pools of parsed molecules; each seeded generation must equal the result of a fresh "
-    "process, printed forms / generability must not change, and no operation may change any attribute reachable from any pool object.",
+    "process, printed forms / generability must not change, and no operation may change any attribute reachable from any pool object. Pools contain twins (same molecules in another atom order), extension-value variants (same plain text), strings whose generation dead-ends for some streams, and systems over the pool's strings; the fresh-process baseline is computed in two opposite orders and must agree with itself.",
     "Held on the histories explored (each replayable from its seed). The baseline process runs without contracts. Third-party objects (scipy/rdkit/networkx) are opaque to the fingerprint.",
     "DESIGN.md section 3, C10",
 )
@@ -198,7 +198,7 @@ check(
     "totality/element oracle + metamorphic relations (random atom renumbering, random call histories mixing default and explicit parameter files) on the real typing entry points",
     "Generated molecules of all archetypes (typable chemistry and the whole fragment library) are typed: either every atom of the H-added molecule gets "
     "one parameter set of its own element's mass or the dedicated error with payload is raised; partial molecules are refused; renumbered copies, any "
-    "history of default/explicit-file calls, and copies of the bundled files give the same assignment.",
+    "history of default/explicit-file calls, and copies of the bundled files give the same assignment; a corpus of ~100 one-token small molecules and ions covering every element of the rule file goes through the same oracle.",
     "Held on the molecules typed. Renumbering replaces the RDKit molecule inside a deep copy of the MolGen (harness side).",
     "DESIGN.md section 3, C20",
 )
@@ -230,7 +230,7 @@ def main():
         ],
         "checks": [],
         "notes": "Verdicts are three-valued: exit 0 held on what was observed (KNOWN-FINDING lines for listed defects), exit 1 VIOLATION, exit 2 INCONCLUSIVE "
-        "(monitor not reached / floor missed / watchdog). Known findings: known_findings.json (read-only at run time).",
+        "(monitor not reached / floor missed / watchdog; watchdogs count CPU time). Known findings: known_findings.json (read-only at run time). Every evidence file lists the library lines the workload reached per anchor file (sys.monitoring).",
         "not_applicable": [],
     }
     for pid in ALL:
